@@ -67,12 +67,17 @@ Section Proofs.
   Variable out : H -> list N.
   Variable spec_field : N -> list N.
 
+  (** [ok n]: the bit lengths n for which the standard's length field is what the code stores, namely the 64-bit length_
+      (= n mod 2^64) behind L - P zero bytes.  MD5 (RFC 1321: "the low-order 64 bits"): every n.  SHA-1 / SHA-256: n < 2^64,
+      the standard's own limit.  SHA-512: n < 2^64 (the standard allows 2^128; sha512.cpp documents the restriction). *)
+  Variable ok : N -> Prop.
+
   (** side conditions on the geometry and the encoders (discharged per instance in HashProofs.v) *)
   Hypothesis HBL : B = L + 8.
   Hypothesis HPL : P <= L.
   Hypothesis HP0 : 0 < P.
   Hypothesis Henc : forall n, length (enc_len n) = 8.
-  Hypothesis Hfield : forall n, (n < 2 ^ 64)%N -> spec_field n = repeat 0%N (L - P) ++ enc_len n.
+  Hypothesis Hfield : forall n, ok n -> spec_field n = repeat 0%N (L - P) ++ enc_len (wrap 64 n).
 
   Notation state := (state H).
   Notation process_loop := (process_loop H B compress).
@@ -235,7 +240,7 @@ Section Proofs.
 
   Lemma finalize_spec : forall st bs rem,
     Inv st bs rem ->
-    (8 * N.of_nat (length (concat bs ++ rem)) < 2 ^ 64)%N ->
+    ok (8 * N.of_nat (length (concat bs ++ rem))) ->
     finalize st = H_spec (concat bs ++ rem).
   Proof.
     intros st bs rem (HF & Hh & Hbuf & Hcur & HcB & Hlb & Hlen) Hbits.
@@ -243,10 +248,10 @@ Section Proofs.
     assert (Hmsglen : length (concat bs ++ rem) = B * length bs + r)
       by (rewrite app_length, (concat_length_blocks B) by assumption; reflexivity).
     (* the stored length *)
-    assert (Hl : wrap 64 (st_len st + N.of_nat (st_cur st * 8)) = (8 * N.of_nat (length (concat bs ++ rem)))%N).
+    assert (Hl : wrap 64 (st_len st + N.of_nat (st_cur st * 8)) = wrap 64 (8 * N.of_nat (length (concat bs ++ rem)))%N).
     { rewrite Hlen, wrap_add_l, <- Nat2N.inj_add.
       replace (8 * B * length bs + st_cur st * 8) with (8 * (B * length bs + r)) by lia.
-      rewrite Nat2N.inj_mul, <- Hmsglen. apply wrap_small. exact Hbits. }
+      rewrite Nat2N.inj_mul, <- Hmsglen. reflexivity. }
     set (len := (8 * N.of_nat (length (concat bs ++ rem)))%N) in *.
     (* buf_ = rem ++ rest *)
     set (rest := skipn (st_cur st) (st_buf st)).
@@ -267,18 +272,18 @@ Section Proofs.
       { unfold T1. rewrite (skipn_all2 (skipn 1 rest)) by (rewrite skipn_length; lia). rewrite app_nil_r. reflexivity. }
       assert (HT1len : length T1 = B) by (rewrite HT1, app_length, repeat_length, Hp1; lia).
       (* second block *)
-      assert (HT2 : blit (zero_fill T1 0 L) L (enc_len len) = repeat 0%N L ++ enc_len len).
+      assert (HT2 : blit (zero_fill T1 0 L) L (enc_len (wrap 64 len)) = repeat 0%N L ++ enc_len (wrap 64 len)).
       { change T1 with ([] ++ T1) at 1. rewrite zero_fill_app by reflexivity. cbn [app]. rewrite Nat.sub_0_r.
         rewrite blit_app by (apply repeat_length). rewrite Henc.
         rewrite skipn_all2 by (rewrite skipn_length; lia). rewrite app_nil_r. reflexivity. }
       rewrite HT2.
       (* the specification side *)
-      assert (Hpad : (concat bs ++ rem) ++ 128%N :: repeat 0%N (P + B - 1 - r) ++ repeat 0%N (L - P) ++ enc_len len
-                     = concat bs ++ T1 ++ (repeat 0%N L ++ enc_len len) ++ []).
+      assert (Hpad : (concat bs ++ rem) ++ 128%N :: repeat 0%N (P + B - 1 - r) ++ repeat 0%N (L - P) ++ enc_len (wrap 64 len)
+                     = concat bs ++ T1 ++ (repeat 0%N L ++ enc_len (wrap 64 len)) ++ []).
       { rewrite HT1, app_nil_r, <- !app_assoc. cbn [app]. do 3 f_equal.
         rewrite !app_assoc, <- !repeat_app. do 2 f_equal. lia. }
       rewrite Hpad.
-      assert (Hplen : length (concat bs ++ T1 ++ (repeat 0%N L ++ enc_len len) ++ []) = B * length bs + 2 * B).
+      assert (Hplen : length (concat bs ++ T1 ++ (repeat 0%N L ++ enc_len (wrap 64 len)) ++ []) = B * length bs + 2 * B).
       { rewrite !app_length, (concat_length_blocks B) by assumption.
         rewrite HT1len, repeat_length, Henc. cbn [length]. lia. }
       rewrite Hplen, div_blocks, chunk_concat by assumption.
@@ -297,10 +302,10 @@ Section Proofs.
       rewrite blit_app by (rewrite app_length, repeat_length, Hp1; lia).
       rewrite Henc. rewrite (skipn_all2 (skipn (L - S (st_cur st)) (skipn 1 rest))) by (rewrite !skipn_length; lia).
       rewrite app_nil_r.
-      set (T := ((rem ++ [128%N]) ++ repeat 0%N (L - S (st_cur st))) ++ enc_len len).
+      set (T := ((rem ++ [128%N]) ++ repeat 0%N (L - S (st_cur st))) ++ enc_len (wrap 64 len)).
       assert (HTlen : length T = B).
       { unfold T. rewrite !app_length, repeat_length, Henc. cbn [length]. lia. }
-      assert (Hpad : (concat bs ++ rem) ++ 128%N :: repeat 0%N (P - 1 - r) ++ repeat 0%N (L - P) ++ enc_len len
+      assert (Hpad : (concat bs ++ rem) ++ 128%N :: repeat 0%N (P - 1 - r) ++ repeat 0%N (L - P) ++ enc_len (wrap 64 len)
                      = concat bs ++ T ++ []).
       { unfold T. rewrite app_nil_r, <- !app_assoc. cbn [app]. do 3 f_equal.
         rewrite app_assoc, <- repeat_app. do 2 f_equal. lia. }
@@ -313,10 +318,10 @@ Section Proofs.
       rewrite Hh. reflexivity.
   Qed.
 
-  (** Main theorem (generic): every chunking of every message of less than 2^64 bits yields the standard's digest. *)
+  (** Main theorem (generic): every chunking of every message whose bit length is in the domain [ok] yields the standard's digest. *)
   Theorem chunking_independent_generic : forall junk chunks,
     length junk = B ->
-    (8 * N.of_nat (length (concat chunks)) < 2 ^ 64)%N ->
+    ok (8 * N.of_nat (length (concat chunks))) ->
     exists st, run junk chunks = Some st /\ finalize st = H_spec (concat chunks).
   Proof.
     intros junk chunks Hj Hbits.
@@ -327,7 +332,7 @@ Section Proofs.
 
   Corollary digest_of_spec : forall junk chunks,
     length junk = B ->
-    (8 * N.of_nat (length (concat chunks)) < 2 ^ 64)%N ->
+    ok (8 * N.of_nat (length (concat chunks))) ->
     digest_of H B P L compress enc_len iv out junk chunks = Some (H_spec (concat chunks)).
   Proof.
     intros junk chunks Hj Hb. unfold digest_of.
@@ -338,7 +343,7 @@ Section Proofs.
   (** shape of the padding (boundary cases as a lemma, not samples): the padded message is a whole number of
       blocks; exactly one more block when the last partial block leaves room for 0x80 and the length field
       (|msg| mod B < P: e.g. up to 55 resp. 111 bytes), exactly two more otherwise (56..63 resp. 112..127). *)
-  Lemma pad_shape : forall msg, (8 * N.of_nat (length msg) < 2 ^ 64)%N ->
+  Lemma pad_shape : forall msg, ok (8 * N.of_nat (length msg)) ->
     length (pad B P spec_field msg) mod B = 0 /\
     (length msg mod B < P -> length (pad B P spec_field msg) = B * (length msg / B) + B) /\
     (P <= length msg mod B -> length (pad B P spec_field msg) = B * (length msg / B) + 2 * B).
